@@ -1,6 +1,10 @@
 //! C20 — file and rule filters: `(no apply ∨ ∃ apply matched) ∧ ¬∃ skip matched`.
-#![cfg(kani)]
-use crate::source::{KaniSource, Source};
+//!
+//! Under Kani the patterns are opaque (the glob is never built) and `FilterPattern::matches` is
+//! stubbed by a solver-chosen answer per pattern. Natively the same body builds real glob
+//! patterns that realise those answers for the path `src/a.lua` and runs the unstubbed code.
+use crate::source::Source;
+use crate::{claim, note, witness};
 use darklua_core::verif as hooks;
 use std::path::Path;
 
@@ -16,46 +20,102 @@ fn reference(apply: &[bool], skip: &[bool]) -> bool {
     any_apply && !any_skip
 }
 
-fn choose_answers(s: &mut impl Source) -> [bool; 8] {
+fn choose_answers<S: Source>(s: &mut S) -> [bool; 8] {
     let answers: [bool; 8] = [
         s.any_bool(), s.any_bool(), s.any_bool(), s.any_bool(),
         s.any_bool(), s.any_bool(), false, false,
     ];
+    #[cfg(kani)]
     unsafe {
         hooks::FILTER_MATCH_ANSWERS = answers;
     }
     answers
 }
 
+#[cfg(not(kani))]
+fn pattern(matches: bool) -> &'static str {
+    if matches {
+        "**/*.lua"
+    } else {
+        "elsewhere/**"
+    }
+}
+
+fn rule_filters<S: Source>(s: &mut S, apply: usize, skip: usize) {
+    let answers = choose_answers(s);
+    let path = Path::new("src/a.lua");
+    #[cfg(kani)]
+    let metadata = unsafe { hooks::opaque_rule_metadata(apply, skip) };
+    #[cfg(not(kani))]
+    let metadata = {
+        let mut metadata = darklua_core::rules::RuleMetadata::default();
+        for i in 0..apply {
+            metadata.push_apply_to_filter(pattern(answers[i]).to_owned()).expect("pattern");
+        }
+        for i in 0..skip {
+            metadata.push_skip_filter(pattern(answers[apply + i]).to_owned()).expect("pattern");
+        }
+        metadata
+    };
+    let result = hooks::rule_metadata_should_apply(&metadata, path);
+    let expected = reference(&answers[..apply], &answers[apply..apply + skip]);
+    note!(s, "rule filters apply={:?} skip={:?} (true = pattern matches src/a.lua): should_apply={} expected={}",
+        &answers[..apply], &answers[apply..apply + skip], result, expected);
+    witness!(result, "rule applies");
+    witness!(!result || apply + skip == 0, "rule skipped");
+    claim!(s, result == expected, "a rule runs on a file exactly when (no apply pattern or some apply pattern matches) and no skip pattern matches");
+    core::mem::forget(metadata);
+}
+
+fn config_filters<S: Source>(s: &mut S, apply: usize, skip: usize) {
+    let answers = choose_answers(s);
+    let path = Path::new("src/a.lua");
+    let mut configuration = darklua_core::Configuration::empty();
+    #[cfg(kani)]
+    unsafe {
+        hooks::set_opaque_configuration_filters(&mut configuration, apply, skip)
+    };
+    #[cfg(not(kani))]
+    {
+        for i in 0..apply {
+            configuration.push_apply_to_filter(pattern(answers[i])).expect("pattern");
+        }
+        for i in 0..skip {
+            configuration.push_skip_filter(pattern(answers[apply + i])).expect("pattern");
+        }
+    }
+    let result = hooks::configuration_should_apply_rule(&configuration, path);
+    let expected = reference(&answers[..apply], &answers[apply..apply + skip]);
+    note!(s, "top-level filters apply={:?} skip={:?}: should_apply_rule={} expected={}",
+        &answers[..apply], &answers[apply..apply + skip], result, expected);
+    witness!(result, "file processed");
+    witness!(!result || apply + skip == 0, "file skipped");
+    claim!(s, result == expected, "a file is transformed exactly when (no apply pattern or some apply pattern matches) and no skip pattern matches");
+    core::mem::forget(configuration);
+}
+
 macro_rules! filter_harness {
     ($rule:ident, $config:ident, $apply:expr, $skip:expr) => {
-        #[kani::proof]
-        #[kani::unwind(5)]
-        #[kani::stub(darklua_core::utils::filter_pattern::FilterPattern::matches, darklua_core::verif::filter_matches_stub)]
-        fn $rule() {
-            let answers = choose_answers(&mut KaniSource);
-            let metadata = unsafe { hooks::opaque_rule_metadata($apply, $skip) };
-            let result = hooks::rule_metadata_should_apply(&metadata, Path::new("src/a.lua"));
-            let expected = reference(&answers[..$apply], &answers[$apply..$apply + $skip]);
-            kani::cover!(result, "rule applies");
-            kani::cover!(!result, "rule skipped");
-            assert!(result == expected, "RuleMetadata::should_apply is (no apply or some apply matched) and no skip matched");
-            std::mem::forget(metadata);
+        pub fn $rule<S: Source>(s: &mut S) {
+            rule_filters(s, $apply, $skip)
         }
-
-        #[kani::proof]
-        #[kani::unwind(5)]
-        #[kani::stub(darklua_core::utils::filter_pattern::FilterPattern::matches, darklua_core::verif::filter_matches_stub)]
-        fn $config() {
-            let answers = choose_answers(&mut KaniSource);
-            let mut configuration = darklua_core::Configuration::empty();
-            unsafe { hooks::set_opaque_configuration_filters(&mut configuration, $apply, $skip) };
-            let result = hooks::configuration_should_apply_rule(&configuration, Path::new("src/a.lua"));
-            let expected = reference(&answers[..$apply], &answers[$apply..$apply + $skip]);
-            kani::cover!(result, "file processed");
-            kani::cover!(!result, "file skipped");
-            assert!(result == expected, "Configuration::should_apply_rule is (no apply or some apply matched) and no skip matched");
-            std::mem::forget(configuration);
+        pub fn $config<S: Source>(s: &mut S) {
+            config_filters(s, $apply, $skip)
+        }
+        #[cfg(kani)]
+        mod $rule {
+            #[kani::proof]
+            #[kani::unwind(5)]
+            #[kani::stub(darklua_core::utils::filter_pattern::FilterPattern::matches, darklua_core::verif::filter_matches_stub)]
+            fn rule() {
+                super::$rule(&mut crate::source::KaniSource);
+            }
+            #[kani::proof]
+            #[kani::unwind(5)]
+            #[kani::stub(darklua_core::utils::filter_pattern::FilterPattern::matches, darklua_core::verif::filter_matches_stub)]
+            fn config() {
+                super::$config(&mut crate::source::KaniSource);
+            }
         }
     };
 }
